@@ -10,7 +10,20 @@ def run(tier, seed):
     g = gen.Gen(seed * 7919 + 9)
     progs = []
     while len(progs) < n:
-        p = g.program({"requests": g.rng.random() < 0.6, "nsteps": g.rng.choice([1, 2]), "nstrat": g.rng.choice([0, 1, 2])})
+        if g.rng.random() < 0.3:
+            # several mixing matrices, some given through parameters and some as literals, in either order
+            p = g.program({"requests": False, "nsteps": g.rng.choice([1, 2]), "nstrat": g.rng.choice([2, 3]), "p_mix": 1.0,
+                           "nonlinear": True})
+            mixed = [o for o in p["ops"] if o["op"] == "strat" and o.get("mix") is not None]
+            for j, o in enumerate(mixed):
+                lit = [[e if isinstance(e, str) else "3/8" for e in row] for row in o["mix"]]
+                if (j + len(progs) // 2) % 2 == 0:
+                    lit[0][0] = {"p": "kappa"}
+                    if len(lit) > 1:
+                        lit[1][0] = {"*": [{"p": "beta"}, "1/2"]}
+                o["mix"] = lit
+        else:
+            p = g.program({"requests": g.rng.random() < 0.6, "nsteps": g.rng.choice([1, 2]), "nstrat": g.rng.choice([0, 1, 2])})
         used = sorted(_o.params_in(p["ops"], set()))
         if not used or len(used) > 4:
             continue
@@ -42,7 +55,7 @@ def run(tier, seed):
     nontrivial = {checklib.signature(p) for p, a in zip(progs, ex["mres"]) if a.get("build_error") is None}
     return {"programs": progs, "explore": ex, "distinct_nontrivial": len(nontrivial), "extra_violations": extra,
             "rule": "models using 1-4 named parameters at flow rates, adjustments, initial distribution, population splits, "
-                    "infectiousness adjustments, mixing matrices, function outputs; each is paired with its literal twin (both "
+                    "infectiousness adjustments, mixing matrices (30% with 2-3 matrices alternating parameterised / literal), function outputs; each is paired with its literal twin (both "
                     "compared with the model, and the two model results with each other); on the implementation: literal vs "
                     "parameter runs, every partition dyn/frozen of the parameters (8 quick / all thorough), defaults, and "
                     "get_input_parameters() vs the parameters occurring in the definition; non-trivial = builds",
